@@ -8,10 +8,10 @@ export CARGO_TARGET_DIR=/tmp/vs_target_$ID CARGO_NET_OFFLINE=true
 git -C /repo worktree remove --force $WT 2>/dev/null
 git -C /repo worktree add -q --detach $WT HEAD || exit 3
 cd $WT
-PLACE=$(python3 -c "import json;print(json.load(open('$SRC/meta.json')).get('demo_placement','tests/seed_demo.rs'))")
+PLACE=$(python3 -c "import json;print(json.load(open('$SRC/meta.json')).get('demo_placement') or 'tests/seed_demo.rs')")
 mkdir -p $(dirname $PLACE); cp $SRC/demo.rs $PLACE
 TESTNAME=$(basename $PLACE .rs)
-DEMOFLAGS=$(python3 -c "import json;print(json.load(open('$SRC/meta.json')).get('demo_rustflags',''))")
+DEMOFLAGS=$(python3 -c "import json;print(json.load(open('$SRC/meta.json')).get('demo_rustflags') or '')")
 RUSTFLAGS="$DEMOFLAGS" cargo test --offline --test $TESTNAME >/tmp/vs_$ID.base.log 2>&1; BASE=$?; grep -q "test result: ok. 0 passed" /tmp/vs_$ID.base.log && BASE=9
 git apply $SRC/patch.diff; APPLY=$?
 cargo build --offline >/tmp/vs_$ID.build.log 2>&1; BUILD=$?
